@@ -9,6 +9,7 @@ mod hc_script;
 mod hc_model;
 mod feedback_model;
 mod emit_model;
+mod ack_emit_model;
 mod tfrc;
 mod codec;
 mod hc_twin;
@@ -254,6 +255,29 @@ fn main() {
             }
             progress(&progress_path, "done");
             eprintln!("emit-model: runs={} steps={} mismatches={} lines={}", n, steps, mism, tr.lines);
+        }
+        "ack-emit-model" => {
+            let input = m.get("in").cloned().unwrap_or_default();
+            let text = std::fs::read_to_string(&input).unwrap_or_else(|e| { eprintln!("TOOL-ERROR: {}: {}", input, e); std::process::exit(2); });
+            let start = geti(&m, "start", 0);
+            let runs = geti(&m, "runs", u64::MAX / 2);
+            let mut quiet = Trace::create("/dev/null");
+            let mut tr = Trace::create(&out);
+            let (mut n, mut steps, mut mism) = (0u64, 0u64, 0u64);
+            for (i, line) in text.lines().enumerate() {
+                let i = i as u64;
+                if i < start || i >= start.saturating_add(runs) || line.trim().is_empty() {
+                    continue;
+                }
+                progress(&progress_path, &format!("{}", i));
+                let spec: serde_json::Value = serde_json::from_str(line).unwrap_or_else(|e| { eprintln!("TOOL-ERROR: bad schedule line {}: {}", i, e); std::process::exit(2); });
+                let (s, mm) = ack_emit_model::run_ack_emit_case(&mut tr, &mut quiet, i, &spec);
+                n += 1;
+                steps += s;
+                mism += mm;
+            }
+            progress(&progress_path, "done");
+            eprintln!("ack-emit-model: runs={} steps={} mismatches={} lines={}", n, steps, mism, tr.lines);
         }
         "sess-random" => {
             let seed = geti(&m, "seed", 1);
